@@ -205,6 +205,10 @@ pub struct Parts {
 }
 impl Parts {
     pub fn new() -> Self {
+        Self::with_glyph_count(3)
+    }
+    /// glyph 0 empty, glyph 1 a triangle, the rest empty outlines (colour glyphs)
+    pub fn with_glyph_count(n: usize) -> Self {
         let pts: Vec<CurvePoint> = [(0, 0), (500, 0), (250, 700)].iter().map(|(x, y)| CurvePoint::new(*x, *y, true)).collect();
         let c: Contour = pts.into();
         let tri = Glyph::Simple(SimpleGlyph {
@@ -212,7 +216,9 @@ impl Parts {
             contours: vec![c],
             instructions: vec![],
         });
-        let base = glyfgraph::build(&[Glyph::Empty, tri, Glyph::Empty]);
+        let mut glyphs = vec![Glyph::Empty, tri];
+        glyphs.resize(n.max(2), Glyph::Empty);
+        let base = glyfgraph::build(&glyphs);
         let mut fvar = vec![0, 1, 0, 0];
         for x in [16u16, 2, 1, 20, 0, 8] {
             be16(&mut fvar, x);
